@@ -4,10 +4,11 @@ from .common import *
 
 LEVEL_TEXT = ("Coq theorem lazy_eq_eager (C13/Props.v): for every well-formed pipeline of HeadRows/EncodeRows/DropRows/LabelRows stages and every dense row, iteration, length, positional access, "
               "header-name access and .headers of the lazy view equal the eager list computation (representation invariant by induction over the pipeline); feats/label split; load-once rows are "
-              "transparent under any access sequence. The model's views are compared with the real row classes on generated tables, pipelines and access sequences; an independent eager oracle "
+              "transparent under any access sequence. Sparse rows (sparse_views_are_dictionaries, sparse_stage_semantics): every stack of EncodeSparse/DropSparse/HeadSparse/LabelSparse wrappers reads like one dictionary "
+              "(keys without repeats, getitem defined exactly on keys, items the graph of getitem, len the number of keys) and each stage is the eager dict operation. The models' views are compared with the real row classes on generated tables, pipelines and access sequences; an independent eager oracle "
               "also covers sparse rows, LazyDense/LazySparse with missing markers, equality and copy.")
 TRUSTED = ["Coq 8.16.1 kernel (coqc)", "extraction + ocaml/driver.ml", "harness/c13.py (generator, eager oracle on plain lists/dicts)",
-           "modelled not verified: sparse wrappers (HeadSparse, EncodeSparse, DropSparse, LabelSparse, LazySparse) and EncodeCatRows are oracle-only; encoders are drawn from {identity, +z, *z, const} in the model"]
+           "modelled not verified: LazySparse / LazyDense missing-value handling, EncodeCatRows and row predicates are oracle-only; encoders are drawn from {identity, +z, *z, const} in the model; sparse header maps are renamings k -> k+shift"]
 ASSUMPTIONS = ["keys are non-negative positions in range or header names present in the eager table", "header names are distinct; one encoder per column"]
 RULE = ("tables of 1-4 rows x 1-5 columns; pipelines of 0-4 stages (headers, encoders as list or mapping, drops by position/name incl. duplicated, unknown and out-of-range entries, row predicates, label by position/name); "
         "access sequences mixing getitem by position/name, full and partial iteration, len, ==, feats/label; non-trivial = at least one stage and 2+ columns")
@@ -40,7 +41,12 @@ def gen_dense(rng):
             nms = []
             if has_hdr:
                 for _ in range(rng.randrange(0, 3)): nms.append(rng.choice(names + ["zz"]))
-            stages.append(("drop", pos, nms))
+            pred = None
+            if rng.random() < 0.4:      # a row predicate: it is asked about the row as it enters this stage
+                u = rng.random()
+                pred = ("pos", rng.randrange(ncur), rng.randrange(2)) if u < 0.5 or not has_hdr else ("name", rng.choice(names), rng.randrange(2))
+                if u > 0.85: pred = ("sum", 0, rng.randrange(2))
+            stages.append(("drop", pos, nms, pred))
             keep = [i for i in range(ncur) if i not in pos and not (has_hdr and names[i] in nms)]
             if has_hdr: names = [names[i] for i in keep]
             ncur = len(keep)
@@ -56,6 +62,10 @@ def eager_dense(row, stages):
         if s[0] == "head": names = list(s[1])
         elif s[0] == "encode": vals = [e(v) for e, v in zip(s[1], vals)]
         elif s[0] == "drop":
+            if len(s) > 3 and s[3] is not None:
+                kind, key, par = s[3]
+                x = vals[key] if kind == "pos" else (vals[names.index(key)] if kind == "name" else sum(vals))
+                if x % 2 == par: return None      # the row predicate drops this row
             keep = [i for i in range(len(vals)) if i not in s[1] and not (names is not None and names[i] in s[2])]
             vals = [vals[i] for i in keep]
             if names is not None: names = [names[i] for i in keep]
@@ -75,7 +85,11 @@ def build_dense(table, stages):
             if s[2] == "list": rows = R.EncodeRows(list(s[1])).filter(rows)
             else: rows = R.EncodeRows({n: e for n, e in zip(cur_names, s[1])}).filter(rows)
         elif s[0] == "drop":
-            rows = R.DropRows(list(s[1]) + list(s[2])).filter(rows)
+            pred = None
+            if len(s) > 3 and s[3] is not None:
+                kind, key, par = s[3]
+                pred = (lambda r, key=key, par=par: r[key] % 2 == par) if kind != "sum" else (lambda r, par=par: sum(r) % 2 == par)
+            rows = R.DropRows(list(s[1]) + list(s[2]), pred).filter(rows)
             if cur_names is not None: cur_names = [n for i, n in enumerate(cur_names) if i not in s[1] and n not in s[2]]
         elif s[0] == "label": rows = R.LabelRows(s[1], "c").filter(rows)
     return list(rows)
@@ -123,7 +137,11 @@ def check_dense(ctx, n_cases):
             ctx.fail(["dense", "raises", "build", errname(e)], "building the pipeline raised %s: %s on %s" % (errname(e), str(e)[:100], case), case); continue
         labelled = bool(stages) and stages[-1][0] == "label"
         ok = True
-        for row, view in zip(table, views):
+        alive = [row for row in table if eager_dense(row, stages) is not None]
+        if len(views) != len(alive):
+            ctx.fail(["dense", "wrong", "rows"], "%d rows came out, the row predicates keep %d on %s" % (len(views), len(alive), case), case); continue
+        if not alive: continue
+        for row, view in zip(alive, views):
             evals, enames, elabel = eager_dense(row, stages)
             if labelled:
                 try:
@@ -143,7 +161,7 @@ def check_dense(ctx, n_cases):
                 ctx.fail(["dense", "wrong", "headers"], "headers %s, eager %s on %s" % (hd, enames, case), case); ok = False; break
         if not ok: continue
         # model for the first row
-        row = table[0]; evals, enames, _ = eager_dense(row, stages)
+        row = alive[0]; evals, enames, _ = eager_dense(row, stages)
         reqs.append((13, wire_dense(row, stages, list(range(len(evals))), enames or [])))
         metas.append((case, evals, enames))
         ctx.sample(dict(case=case, eager=evals), cap=4)
@@ -169,11 +187,18 @@ def check_sparse(ctx, n_cases):
         try:
             rows = [R.LazySparse((lambda r=r: dict(r))) for r in table] if lazy else [dict(r) for r in table]
             if encs: rows = R.EncodeRows(dict(encs)).filter(rows)
-            if drops: rows = R.DropRows(drops).filter(rows)
+            pk, ppar = rng.choice(keys), rng.randrange(2)
+            use_pred = bool(drops) and rng.random() < 0.4
+            val = lambda x: int(float(x))
+            if drops: rows = R.DropRows(drops, (lambda r: pk in r.keys() and val(r[pk]) % 2 == ppar) if use_pred else None).filter(rows)
             if lab is not None: rows = R.LabelRows(lab, "c").filter(rows)
             rows = list(rows)
             nsp = {k for k, e in encs.items() if e("0") != 0}
-            for r, v in zip(table, rows):
+            before_drop = [{k: encs.get(k, lambda x: x)(r.get(k, "0")) for k in set(r) | nsp} for r in table]
+            alive = [r for r, e in zip(table, before_drop) if not (use_pred and pk in e and val(e[pk]) % 2 == ppar)]
+            if len(alive) != len(rows):
+                ctx.fail(["sparse", "wrong", "rows"], "%d rows came out, the row predicate (key %s parity %d) keeps %d on %s" % (len(rows), pk, ppar, len(alive), case), dict(case, pred=[pk, ppar])); continue
+            for r, v in zip(alive, rows):
                 e = {k: encs.get(k, lambda x: x)(r.get(k, "0")) for k in set(r) | nsp}
                 e = {k: x for k, x in e.items() if k not in drops}
                 if lab is not None:
@@ -229,7 +254,7 @@ def check_lazy_sparse(ctx, n_cases):
                     if a == "getitem": got = {k: norm(v[k]) for k in e}; want = {k: norm(x) for k, x in e.items()}
                     elif a == "items": got = {k: norm(x) for k, x in dict(v.items()).items()}; want = {k: norm(x) for k, x in e.items()}
                     elif a == "keys": got = set(v.keys()); want = set(e)
-                    elif a == "len": got = len(v) >= len([k for k in e if e[k] != "0" or True]) - len([k for k in e if e[k] == "0"]); want = True
+                    elif a == "len": got = len(v); want = len(e)
                     else:
                         if lab is None or lab not in e: continue
                         got = norm(v.label); want = norm(e[lab])
@@ -267,6 +292,77 @@ def check_lazy_dense(ctx, n_cases):
         except Exception as ex:
             ctx.fail(["lazy-dense", "raises", errname(ex)], "%s raised %s: %s on %s" % (a, errname(ex), str(ex)[:80], case), case)
 
+# ---------------------------------------------------------------- sparse rows: the real wrapper stack against the extracted ModelSparse (op 113)
+class SEnc:
+    """encoders of the sparse model: int(x)+z, int(x)*z, const z  (values may be the strings the readers deliver or ints from an earlier stage)"""
+    def __init__(self, kind, z): self.kind, self.z = kind, z
+    def __call__(self, v):
+        return int(v) + self.z if self.kind == 1 else (int(v) * self.z if self.kind == 2 else self.z)
+    def __repr__(self): return "SEnc(%d,%d)" % (self.kind, self.z)
+
+def check_sparse_model(ctx, n_cases):
+    import coba.pipes.rows as R
+    rng = ctx.rng
+    reqs, metas = [], []
+    for _ in range(n_cases):
+        keys = rng.sample(range(6), rng.randrange(0, 5))
+        d = {k: str(rng.randrange(-3, 9)) for k in keys}
+        stages, off = [], 0
+        for _ in range(rng.randrange(0, 5)):
+            u = rng.random()
+            if u < 0.45: stages.append(("encode", {k + off: SEnc(rng.randrange(1, 4), rng.randrange(0, 4)) for k in rng.sample(range(7), rng.randrange(0, 5))}))
+            elif u < 0.8: stages.append(("drop", [k + off for k in rng.sample(range(7), rng.randrange(1, 4))]))
+            else: sh = rng.choice([-7, 7, 20]); stages.append(("head", sh)); off += sh
+        lab = rng.randrange(7) + off if rng.random() < 0.5 else None
+        lazy = rng.random() < 0.3
+        case = dict(row=d, stages=[(s[0], repr(s[1])) for s in stages], label=lab, lazy=lazy)
+        ctx.count("sparse-model", repr(case), bool(stages) and len(d) >= 1)
+        qs = sorted({k + off for k in range(-1, 8)} | {k for k in range(0, 7)})
+        try:
+            rows = [R.LazySparse(lambda: dict(d)) if lazy else dict(d)]
+            for s in stages:
+                if s[0] == "encode": rows = R.EncodeRows(dict(s[1])).filter(rows)
+                elif s[0] == "drop": rows = R.DropRows(list(s[1])).filter(rows)
+                else: rows = R.HeadRows({k + s[1]: k for k in range(-80, 80)}).filter(rows)
+            if lab is not None: rows = R.LabelRows(lab, "c").filter(rows)
+            v = list(rows)[0]
+            def show(r): return [len(r), sorted(r.keys()), sorted([k, int(x)] for k, x in r.items())]
+            def get(r, k):
+                try: return [int(r[k])]
+                except KeyError: return []
+            order = ["show", "get", "show", "get"]; rng.shuffle(order)
+            obs = {}
+            for a in order:
+                o = show(v) if a == "show" else [get(v, k) for k in qs]
+                if a in obs and obs[a] != o:
+                    ctx.fail(["sparse", "wrong", "unstable"], "%s gave %r then %r on %s" % (a, obs[a], o, case), case); raise StopIteration
+                obs[a] = o
+            impl = obs["show"] + [obs["get"]]
+            if lab is not None:
+                f = v.feats
+                impl += [[int(v.label)], show(f)]
+                if v.labeled[1] != v.label or sorted(v.labeled[0].items()) != sorted(f.items()):
+                    ctx.fail(["sparse", "wrong", "labeled"], "labeled %r differs from feats/label on %s" % (v.labeled, case), case); continue
+            if not (v == dict(v.items())):
+                ctx.fail(["sparse", "wrong", "eq"], "row != dict(row.items()) on %s" % case, case); continue
+        except StopIteration: continue
+        except Exception as ex:
+            ctx.fail(["sparse", "raises", errname(ex)], "sparse pipeline raised %s: %s on %s" % (errname(ex), str(ex)[:100], case), case); continue
+        ws = []
+        for s in stages:
+            if s[0] == "encode": ws.append([0, [[k, e.kind, e.z] for k, e in s[1].items()]])
+            elif s[0] == "drop": ws.append([1, list(s[1])])
+            else: ws.append([2, s[1]])
+        reqs.append((113, [[[k, int(x)] for k, x in d.items()], ws, [] if lab is None else [lab], qs]))
+        metas.append((case, impl))
+    for (case, impl), mo in zip(metas, ctx.get_model().batch(reqs)):
+        def canon(t): return [t[0], sorted(t[1]), sorted(t[2])]
+        m = canon(mo[:3]) + [mo[3]]
+        if len(mo) > 4: m += [mo[4], canon(mo[5])]
+        if m != impl:
+            ctx.disagree("C13.run_sparse", case, str(impl)[:400], str(m)[:400])
+            ctx.fail(["sparse", "wrong", "model"], "the wrapper stack reads %r, the proved model %r on %s" % (impl, m, case), case)
+
 def corpus(ctx):
     import coba.pipes.rows as R
     rows = [[1, 2, 3], [4, 5, 6]]
@@ -285,6 +381,7 @@ def run(ctx):
     corpus(ctx)
     check_dense(ctx, ctx.n(1500, 20000))
     check_sparse(ctx, ctx.n(500, 6000))
+    check_sparse_model(ctx, ctx.n(800, 10000))
     check_lazy_dense(ctx, ctx.n(500, 6000))
     check_lazy_sparse(ctx, ctx.n(400, 5000))
 
